@@ -276,12 +276,9 @@ def h_with_times(ex):
             ex.close(R.values[j], want, 'interp-three-cases', tol=1e-6)
             # at shared sample times the stored value exactly
             for i in range(n):
-                if ex.sym:
-                    ex.c.solver.push()
-                    ex.c.solver.add(P.b_z3(x == ts[i]))
-                    if ex.c._check()[0] == 'sat':
+                with ex.under(x == ts[i]) as feasible:
+                    if feasible:
                         ex.close(R.values[j], vs[i], 'stored-value-at-shared-time', tol=1e-9)
-                    ex.c.solver.pop()
     elif kind == 'E':
         ex.same(type(R), EmptySignal, 'class')
         ex.close(R.values, [0.0] * q, 'empty-stays-zero', tol=0.0)
